@@ -576,6 +576,7 @@ func c11(c *core.Check) {
 	c11EndSpacing(c)
 	c11EndSpacingTested(c)
 	c11SoftHyphensLongestFirst(c)
+	c11AtomicAdvance(c)
 	c11DeadArithmetic(c)
 	c11StrutCacheKey(c)
 	r9 := c.Rule("R9", "running extrema: every guarded update `if a < b { c = a }` of the inline layout and text code compares the new value with the variable it updates (the line's running top, bottom, width …): a comparison with another variable overwrites the extremum instead of extending it", 33)
